@@ -326,6 +326,8 @@ class Slave(logging_utils.LoggableMixin):
             if self._poll_started:
                 self._stop_polling()
 
+            self._load_ports_if_just_permanently_offline()
+
             if self._online:
                 # Take offline
                 self._online = False
@@ -354,6 +356,8 @@ class Slave(logging_utils.LoggableMixin):
         if self._listen_session_id:
             self._stop_listening()
 
+        self._load_ports_if_just_permanently_offline()
+
         if self._online:
             # Take offline
             self._online = False
@@ -364,6 +368,13 @@ class Slave(logging_utils.LoggableMixin):
 
     def is_permanently_offline(self) -> bool:
         return self._poll_interval == 0 and not self._listen_enabled
+
+    def _load_ports_if_just_permanently_offline(self) -> None:
+        # An enabled device that has just become permanently offline keeps its ports on the master only; if they are not
+        # loaded (e.g. it was enabled while still polled and never came online), load them from persisted data, as enable()
+        # and a restart do
+        if self._enabled and self._name and self.is_permanently_offline() and not self._get_local_ports():
+            asyncio_utils.fire_and_forget(self._load_ports())
 
     async def wait_online(self, timeout: int) -> None:
         for _ in range(timeout):
